@@ -1,5 +1,7 @@
 package main
 
+import "strings"
+
 // Registration of the per-property checks.
 
 func init() {
@@ -23,6 +25,48 @@ func init() {
 			"the copy relation of every type is generated from its go/types declaration; nil and empty slices/maps are identified",
 			"faithfulness and independence for values of any depth follow from the per-method obligations by the modular rule (structural induction over the finite IR tree)",
 			"relations established by a callee stay valid because the caller may only write memory it allocated itself (own-memory frame obligations); IR values are finite trees",
+		},
+	}
+	propSpecs["C04"] = &PropSpec{
+		ID: "C04",
+		Patterns: []string{"./internal/ast", "./internal/ast/compiler", "./internal/orderedmap", "./internal/tools", "./internal/veneers/...", "./internal/yaml",
+			"./internal/languages", "./internal/jsonschema", "./internal/openapi", "./internal/codegen", "./internal/jennies/jsonschema"},
+		Level:   "proof",
+		Prepare: func(e *Engine) { e.assumeKindInv = true },
+		NoTags:  true,
+		Opts:    func(e *Engine, key string) VerifyOpts { return VerifyOpts{Sweep: true} },
+		Assumptions: []string{
+			"scope: panic-freedom (nil dereference, index and slice bounds, type assertions, nil-map writes, make sizes, division, explicit panics, callee preconditions) of the functions listed in obligations.lock, each under the standing preconditions named in trusted_base; termination is NOT proved",
+			"functions of the swept packages that are not in the lock are undecided and not claimed (their failing obligations are either missing preconditions or candidate findings, see DESIGN.md)",
+			"calls to functions without a contract are assumed not to panic themselves (each is verified separately when it is in the lock); third-party libraries and text/template execution are assumed not to panic",
+		},
+	}
+	propSpecs["C20"] = &PropSpec{
+		ID:       "C20",
+		Patterns: []string{"./internal/yaml", "./internal/codegen", "./internal/ast", "./internal/ast/compiler", "./internal/orderedmap", "./internal/tools", "./internal/veneers/..."},
+		Level:    "proof",
+		Prepare:  func(e *Engine) { e.assumeKindInv = true },
+		Funcs: func(e *Engine) []string {
+			return []string{"yaml.(*CompilerLoader).Load", "yaml.(*VeneersLoader).load", "codegen.PipelineFromFile",
+				"yaml.CompilerPass.AsCompilerPass", "yaml.BuilderRule.AsRewriteRule", "yaml.OptionRule.AsRewriteRule",
+				"yaml.BuilderSelector.AsSelector", "yaml.OptionSelector.AsSelector"}
+		},
+		Opts: func(e *Engine, key string) VerifyOpts {
+			o := VerifyOpts{Sweep: true}
+			if strings.Contains(key, ".As") {
+				o.ExtraPost = func(f *Frame, exit *State, rs []SVal) []namedTerm { return f.unionObligations(exit, rs) }
+			}
+			o.OnlyKinds = []string{"pre", "union", "typegraph"}
+			return o
+		},
+		Extra: func(e *Engine, tier string) []*FuncResult {
+			return []*FuncResult{e.typeGraphResult(), e.decoderSitesResult(map[string]bool{
+				"yaml.(*CompilerLoader).Load": true, "yaml.(*VeneersLoader).load": true, "codegen.PipelineFromFile": true})}
+		},
+		Assumptions: []string{
+			"yaml.v3 semantics are assumed: NewDecoder is not strict, KnownFields(true) makes Decode reject any mapping key that matches no field of the target struct at any depth (for struct targets without custom unmarshalers); JSON Schema additionalProperties:false rejects undeclared keys",
+			"positions typed any / map[string]any / map[string]string are open by design (listed in trusted_base)",
+			"the safety obligations of the loaders (nil dereferences etc.) belong to C04, not to this property",
 		},
 	}
 }
